@@ -292,17 +292,33 @@ func raceSolvers(file string, timeoutS, seed int, wantTwo bool) (SolverResult, [
 	}
 	go func() { wg.Wait(); close(ch) }()
 	var definite []SolverResult
+	var tentative *SolverResult
 	if first.Verdict == "unsat" || first.Verdict == "sat" {
 		definite = append(definite, first)
 	}
 	for res := range ch {
 		all = append(all, res)
+		if res.Verdict == "unsat" && res.Solver == "z3" {
+			// z3 4.8.12 alone is not trusted with "unsat" (it has answered unsat on a satisfiable
+			// query here): wait for another solver, or have its unsat core re-checked below
+			r := res
+			tentative = &r
+			continue
+		}
 		if res.Verdict == "unsat" || res.Verdict == "sat" {
 			definite = append(definite, res)
 			if !wantTwo || len(definite) >= 2 {
 				cancel()
 				break
 			}
+		}
+	}
+	if len(definite) == 0 && tentative != nil {
+		if r, ok := confirmByCore(file, timeoutS, seed); ok {
+			all = append(all, r)
+			definite = append(definite, r)
+		} else {
+			all = append(all, SolverResult{Verdict: "unknown", Solver: "z3(unconfirmed unsat)", Time: tentative.Time})
 		}
 	}
 	if len(definite) == 0 && useAlts {
@@ -355,4 +371,70 @@ func writeQuery(dir, name string, body string) (string, error) {
 	}
 	p := filepath.Join(dir, fn+".smt2")
 	return p, os.WriteFile(p, []byte(body), 0o644)
+}
+
+// confirmByCore re-checks an "unsat" that only z3 4.8.12 produced: z3 4.8.12 is asked for an unsat
+// core over the named assertions, and the core alone must be refuted by z3-new or cvc5.
+func confirmByCore(file string, timeoutS, seed int) (SolverResult, bool) {
+	data, err := os.ReadFile(file)
+	if err != nil {
+		return SolverResult{}, false
+	}
+	lines := strings.Split(strings.Replace(string(data), "(get-model)", "", 1), "\n")
+	var named []string
+	n := 0
+	for _, l := range lines {
+		if strings.HasPrefix(l, "(assert ") && strings.HasSuffix(l, ")") && balanced(l) {
+			n++
+			named = append(named, fmt.Sprintf("(assert (! %s :named a!%d))", l[8:len(l)-1], n))
+		} else {
+			named = append(named, l)
+		}
+	}
+	body := strings.Join(named, "\n")
+	body = strings.Replace(body, "(set-option :produce-models true)", "(set-option :produce-unsat-cores true)", 1)
+	body = strings.Replace(body, "(check-sat)", "(check-sat)\n(get-unsat-core)", 1)
+	cf := strings.TrimSuffix(file, ".smt2") + ".named.smt2"
+	if os.WriteFile(cf, []byte(body), 0o644) != nil {
+		return SolverResult{}, false
+	}
+	for _, sd := range []int{seed, seed + 17, seed + 34} {
+		r := runSolver(context.Background(), solvers[1], cf, timeoutS, sd)
+		if r.Verdict != "unsat" {
+			continue
+		}
+		core := map[string]bool{}
+		for _, w := range strings.FieldsFunc(r.Raw, func(c rune) bool { return c == ' ' || c == '(' || c == ')' || c == '\n' }) {
+			if strings.HasPrefix(w, "a!") {
+				core[w] = true
+			}
+		}
+		if len(core) == 0 {
+			continue
+		}
+		var keep []string
+		k := 0
+		for _, l := range lines {
+			if strings.HasPrefix(l, "(assert ") && strings.HasSuffix(l, ")") && balanced(l) {
+				k++
+				if !core[fmt.Sprintf("a!%d", k)] {
+					continue
+				}
+			}
+			keep = append(keep, l)
+		}
+		of := strings.TrimSuffix(file, ".smt2") + ".core.smt2"
+		if os.WriteFile(of, []byte(strings.Join(keep, "\n")), 0o644) != nil {
+			return SolverResult{}, false
+		}
+		for _, i := range []int{0, 2} {
+			rr := runSolver(context.Background(), solvers[i], of, timeoutS, seed)
+			if rr.Verdict == "unsat" {
+				rr.Solver = "z3-core+" + rr.Solver
+				rr.Time += r.Time
+				return rr, true
+			}
+		}
+	}
+	return SolverResult{}, false
 }
